@@ -174,6 +174,18 @@ class Ctx:
     def count(self, key, n=1):
         self.counts[key] += n
 
+    def timed(self, name):
+        ctx = self
+
+        class _T:
+            def __enter__(self):
+                self.t = time.time()
+
+            def __exit__(self, *a):
+                ctx.counts['time_s:' + name] += round(time.time() - self.t, 2)
+
+        return _T()
+
     def note(self, text):
         if text not in self.notes:
             self.notes.append(text)
